@@ -101,6 +101,10 @@ func doAdd(obj *OpObj, target dom.ContainerBuilder) error {
 	// If the target location specifies an array index, a new value is
 	//      inserted into the array at the specified index.
 	if idx, isNum := obj.Path.LastSegment().IsNumeric(); isNum && parent.IsList() {
+		// The specified index MUST NOT be greater than the number of elements in the array.
+		if idx < 0 || idx > parent.(dom.List).Size() {
+			return fmt.Errorf("list index out of bounds: %s", obj.Path.String())
+		}
 		insertListItem(parent.(dom.ListBuilder), idx, obj.Value)
 		return nil
 	} else if parent.IsContainer() {
